@@ -2,7 +2,7 @@
 
 ENGINES = [
     {'name': 'crawler', 'path': 'mc/crawl.py',
-     'serves_properties': ['C01', 'C02', 'C03', 'C06', 'C10', 'C13'],
+     'serves_properties': ['C01', 'C02', 'C03', 'C05', 'C06', 'C08', 'C10', 'C13'],
      'kind_free_text': 'in-process world (mc/world.py: real Flask app, virtual clock, snapshots) + independent MPD '
                        'reader (mc/mpd.py) + independent ISO-BMFF reader (mc/bmff.py) + synthetic media writer '
                        '(mc/synth.py); clock transition system over critical instants'},
@@ -108,5 +108,30 @@ CHECKS['C06'] = dict(
          'the stored total, the declared duration must equal the reference duration to the millisecond, and '
          'on-demand ranges must tile the stored file on box boundaries.',
     note='Numbers enumerated per 5.3.9.5.3 from the document alone; stored view from mc/bmff.py.')
+
+CHECKS['C05'] = dict(
+    engine='crawler',
+    technique='bounded-exhaustive option/clock product + single-position hostile-string injection vs lxml + own MPD rule set',
+    design_ref='DESIGN.md §7 C05',
+    text='9 templates x {live, vod, odvod} x {single, multi period} x every option vector of deviation level 1 '
+         '(thorough: 2 inside interaction groups) over lexical-trouble alphabets x 3 clocks, MPD patches at three '
+         'delays, and 13 hostile strings injected into each of 15 positions (stored titles and licence URLs, '
+         'free-text query options, unknown query names, Host) x template x mode. Every 200 body must parse with a '
+         'non-recovering parser, keep the element/attribute skeleton of the benign request, and satisfy the '
+         'structural rules of mc/mpdrules.py written from ISO/IEC 23009-1.',
+    note='Rule set is the subset the property names (required attributes, lexical types, non-negativity, id '
+         'uniqueness, non-empty AdaptationSets, template identifiers); it is not a full schema validation.')
+CHECKS['C08'] = dict(
+    engine='explorer',
+    technique='bounded-exhaustive product over calendar-critical clocks x start x depth x mup on the real DashTiming',
+    design_ref='DESIGN.md §7 C08',
+    text='DashTiming is constructed with options from the real option parser for every tuple of: calendar-critical '
+         'instants (first/last two minutes of the first and last day of every month of a leap and a non-leap year, '
+         'x 4 microsecond phases), the five symbolic starts and explicit starts 0..400 d before now with three '
+         'UTC offsets, seven depths, seven update periods and 2-3 reference layouts; the inequalities of the '
+         'statement, publishTime monotonicity along the sorted instants and day-constancy of the symbolic starts '
+         'are evaluated in exact timedelta arithmetic; a pass through HTTP checks the rendered MPD attributes '
+         'against the pure values.',
+    note='Option values the endpoint refuses are dropped (listed in evidence); explicit starts are <= now.')
 
 NOT_BUILT = {}
